@@ -41,13 +41,13 @@ impl Prop for C01 {
         "C01"
     }
     fn phases(&self, tier: Tier) -> Vec<PhaseSpec> {
-        vec![ph("class-forcing", N_FORCED), ph("random-trees", tier.pick(40_000, 3_000_000))]
+        vec![ph("class-forcing", N_FORCED), ph("random-trees", tier.pick(150_000, 10_000_000))]
     }
     fn required_classes(&self, _tier: Tier) -> Vec<String> {
         required_ad_classes()
     }
     fn min_evaluations(&self, tier: Tier) -> u64 {
-        tier.pick(50_000, 5_000_000)
+        tier.pick(200_000, 20_000_000)
     }
     fn rule(&self) -> String {
         "Seeded random expression trees (depth<=7, <=40 nodes) over + - * / (Dual.Dual, Dual.f64, f64.Dual, all four owned/borrowed forms), neg, pow(f64), exp, log, norm_cdf, inv_norm_cdf, abs, Iterator::sum, on multi-variable Dual leaves with arbitrary coefficients, shared / unshared / differently ordered variable lists; plus one forced tree per (operator x form x ownership x VarsRelationship) class. Every node of every tree is compared with reference AD (value, each partial, float-operand promotion). distinct_nontrivial counts distinct tree shapes (operators, forms, ownership, leaf wiring; floats ignored) with at least one operator.".into()
